@@ -2,7 +2,13 @@
 //   case  : "<t0 ns> <results> <ops>"
 //           results = per callback a string of T/F (the n-th run returns that; past the end: F), comma separated, "-" = empty
 //           ops     = comma separated  S<rep 0|1>:<ms>  (the k-th S uses callback k)  |  A<ns> (advance the clock)  |  C (clear)
+//                     |  W<k>:<ns>  advance the clock by <ns> with callback k set to PARK: when it runs next it does not return
+//                        until released; while it is parked a second thread calls Timer::clear() (with the real code that call
+//                        blocks on the spin lock the timer thread holds across the callback); after a few ms the harness notes
+//                        whether clear() has returned (w1) or not (w0), releases the callback and joins the second thread.
+//                        If callback k does not run in this step, clear() is simply called from the second thread.
 //   result: tokens separated by blanks, per op:  [s<ret> | c<ret>]  f<cb>@<clock>:<ret 0|1>*  q      ("!" instead of q: thread not seen idle)
+//           for W:  [w<0|1>]  then, in the order of occurrence, the f tokens and c<ret> (appended when clear() has returned),  q
 // Virtual time: clock_gettime(CLOCK_REALTIME) is defined here (std::chrono::high_resolution_clock, hence Tickval,
 // reads it); CLOCK_MONOTONIC (hypersleep) stays real and each such read by the timer thread is counted: the thread
 // reads it exactly when it has decided to sleep, so "two further sleeps begun" = a whole loop pass that started after
@@ -10,6 +16,7 @@
 #include "hcommon.hpp"
 #include <atomic>
 #include <mutex>
+#include <thread>
 #include <pthread.h>
 #include <unistd.h>
 #include <sys/syscall.h>
@@ -56,8 +63,10 @@ struct Mon
 	std::vector<unsigned> cnt;
 	std::mutex mx;
 	std::vector<std::string> trace;
+	std::atomic<int> park_cb;
+	std::atomic<bool> parked, release;
 
-	Mon() : cnt(NCB, 0) {}
+	Mon() : cnt(NCB, 0), park_cb(-1), parked(false), release(false) {}
 
 	bool fire(int i)
 	{
@@ -66,8 +75,17 @@ struct Mon
 		++cnt[i];
 		std::ostringstream os;
 		os << 'f' << i << '@' << t << ':' << (r ? 1 : 0);
-		std::lock_guard<std::mutex> g(mx);
-		trace.push_back(os.str());
+		{
+			std::lock_guard<std::mutex> g(mx);
+			trace.push_back(os.str());
+		}
+		if (park_cb.load() == i)
+		{
+			park_cb = -1;
+			parked = true;
+			while (!release.load())
+				usleep(50);
+		}
 		return r;
 	}
 	template<int I> bool cb() { return fire(I); }
@@ -128,6 +146,40 @@ static std::string run_case(const std::string& line)
 				g_vnow += strtoll(o.c_str() + 1, 0, 10);
 			else if (o[0] == 'C')
 				tok << 'c' << timer.clear() << ' ';
+			else if (o[0] == 'W')
+			{
+				const size_t colon(o.find(':'));
+				if (colon == std::string::npos)
+					return "BAD-CASE";
+				mon.release = false;
+				mon.parked = false;
+				mon.park_cb = atoi(o.c_str() + 1);
+				const unsigned long c0(g_sleeps.load());
+				g_vnow += strtoll(o.c_str() + colon + 1, 0, 10);
+				// until callback k is parked, or the thread is idle again without having run it
+				for (int spins(0); spins < 100000 && !mon.parked.load() && g_sleeps.load() < c0 + 2; ++spins)
+					usleep(50);
+				const bool parked(mon.parked.load());
+				if (!parked)
+					mon.park_cb = -1;
+				std::atomic<bool> returned(false);
+				std::thread helper([&]()
+				{
+					const size_t n(timer.clear());
+					std::ostringstream cs;
+					cs << 'c' << n;
+					std::lock_guard<std::mutex> g(mon.mx);
+					mon.trace.push_back(cs.str());
+					returned = true;
+				});
+				if (parked)
+				{
+					usleep(4000);		// clear() must still be waiting for the lock
+					tok << 'w' << (returned.load() ? 1 : 0) << ' ';
+					mon.release = true;
+				}
+				helper.join();
+			}
 			else
 				return "BAD-CASE";
 			const bool quiet(wait_quiet());
